@@ -14,7 +14,7 @@ func (e *Engine) newUnit(fn *ssa.Function) *Unit {
 	key := e.funcKey(fn)
 	u := &Unit{eng: e, root: fn, rootKey: key, fc: e.cs.Funcs[key], oblByName: map[string]*Obligation{}, unmodelled: map[string]int{},
 		siteCount: map[string]int{}, sends: map[int][]sendRec{}, ghostSort: map[string]Sort{}, sentinels: map[string]Term{}, globals: map[string]Val{},
-		declared: map[string]bool{}, onceDone: map[string]bool{}, rootCaller: map[string]Term{}, objinvDone: map[string]bool{}, initArrays: map[string]Term{}, closedChans: map[string]bool{}}
+		declared: map[string]bool{}, onceDone: map[string]bool{}, rootCaller: map[string]Term{}, objinvDone: map[string]bool{}, initArrays: map[string]Term{}, closedChans: map[string]bool{}, assumedUsed: map[string]int{}}
 	if u.fc != nil {
 		u.fc.Used = true
 		for _, g := range u.fc.Ghosts {
